@@ -323,8 +323,13 @@ func runMerge(c *ctx, which string) {
 						}
 					}
 					if which == "C12" && len(g) > 1 {
-						if b.Meta.Rows > cfg.MaxRowGroupRows || b.Meta.UncompressedSize > cfg.MaxRowGroupBytes {
-							c.r.Add(Finding{Kind: "violation", Check: "row-group-limits", Detail: fmt.Sprintf("combined block has %d rows / %d bytes; limits %d / %d", b.Meta.Rows, b.Meta.UncompressedSize, cfg.MaxRowGroupRows, cfg.MaxRowGroupBytes), Replay: h.Ops})
+						// judged by what the block really holds (its scanned rows), not only by what its metadata says
+						realRows, realBytes := len(b.Rows), 0
+						for _, rb := range b.Rows {
+							realBytes += 4 + len(rb)
+						}
+						if max(b.Meta.Rows, realRows) > cfg.MaxRowGroupRows || max(b.Meta.UncompressedSize, realBytes) > cfg.MaxRowGroupBytes {
+							c.r.Add(Finding{Kind: "violation", Check: "row-group-limits", Detail: fmt.Sprintf("combined block holds %d rows / %d bytes (metadata says %d / %d); limits %d / %d", realRows, realBytes, b.Meta.Rows, b.Meta.UncompressedSize, cfg.MaxRowGroupRows, cfg.MaxRowGroupBytes), Replay: h.Ops})
 						}
 						c.r.Hit("merge.combined-blocks")
 					}
@@ -392,6 +397,7 @@ func runMerge(c *ctx, which string) {
 		byteLimitMerges(c)
 		keySetReconfigMerges(c)
 		mergeKeyCorrespondence(c)
+		c12MultiBatchBlocks(c)
 	}
 	if which == "C11" {
 		c17CopiedExternal(c) // stored content survives a merge that copies an external writer's block verbatim
